@@ -49,7 +49,7 @@ SPEC = {
 }
 
 META = {
-    "engine": "bb-server",
+    "engine": "bb-server", "also": ["lib-rapid"],
     "technique": "model-based stateful PBT (rapid) against the real server, last-write-wins map as reference model; in-process rapid properties on the record "
                  "merge / sort / memtable code against the same fold",
     "text": ("Generated write/flush/merge/compaction/restart histories with a generated read after every step, compared exactly with a last-write-wins model. "
